@@ -368,6 +368,11 @@ func scenC17(w *vsim.World, spec *vsim.Spec) {
 	mounts := map[string]arvados.Mount{cw.ctrOut: {Kind: "tmp"}}
 	nmounts := w.Choose("collection-mounts", 3)
 	var linkTargets []string
+	type pendingMount struct {
+		cm  *collModel
+		pdh string
+	}
+	var pend []pendingMount
 	for i := 0; i < nmounts; i++ {
 		cm := &collModel{files: map[string][]byte{}}
 		var txt strings.Builder
@@ -420,34 +425,7 @@ func scenC17(w *vsim.World, spec *vsim.Spec) {
 		}
 		pdh := fmt.Sprintf("%x+%d", md5.Sum([]byte(txt.String())), txt.Len())
 		api.colls[pdh] = txt.String()
-		mpoint := fmt.Sprintf("/mnt/c%d", i)
-		below := w.Chance(fmt.Sprintf("m%d-below-output", i), 400)
-		if below {
-			mpoint = cw.ctrOut + fmt.Sprintf("/mp%d", i)
-			// the mount point exists in the host directory as an (empty) directory
-			os.MkdirAll(filepath.Join(hostOut, fmt.Sprintf("mp%d", i)), 0755)
-			cw.root.kids[fmt.Sprintf("mp%d", i)] = &tnode{dir: true, kids: map[string]*tnode{}}
-			w.Probe("collection-mounted-below-output")
-		}
-		mp := ""
-		if _, hasSub := cm.files["sub/"+strings.SplitN(firstUnder(cm.files, "sub/"), "/", 2)[0]]; hasSub || firstUnder(cm.files, "sub/") != "" {
-			if w.Chance(fmt.Sprintf("m%d-path-sub", i), 300) {
-				mp = "sub"
-			}
-		}
-		mounts[mpoint] = arvados.Mount{Kind: "collection", PortableDataHash: pdh, Path: mp}
-		cw.mounts[mpoint], cw.mpath[mpoint] = cm, mp
-		// link targets into this mount: the mount point, a file, a directory
-		linkTargets = append(linkTargets, mpoint)
-		for _, p := range sortedFileKeys(cm.files) {
-			if mp == "" || strings.HasPrefix(p, mp+"/") {
-				linkTargets = append(linkTargets, mpoint+"/"+strings.TrimPrefix(strings.TrimPrefix(p, mp), "/"))
-				break
-			}
-		}
-		if mp == "" && firstUnder(cm.files, "sub/") != "" {
-			linkTargets = append(linkTargets, mpoint+"/sub")
-		}
+		pend = append(pend, pendingMount{cm, pdh})
 	}
 	// ---- secret mounts -----------------------------------------------------------------
 	secretMounts := map[string]arvados.Mount{}
@@ -499,6 +477,40 @@ func scenC17(w *vsim.World, spec *vsim.Spec) {
 		}
 	}
 	build(cw.root, cw.ctrOut, hostOut, 0)
+	// place the collection mounts: beside the output directory, or beneath ANY directory of it
+	// (so that a symlink to that directory, or to one above it, has a mount beneath its target)
+	for i, pm := range pend {
+		cm, pdh := pm.cm, pm.pdh
+		mpoint := fmt.Sprintf("/mnt/c%d", i)
+		if w.Chance(fmt.Sprintf("m%d-below-output", i), 500) {
+			dir := dirsList[w.Choose(fmt.Sprintf("m%d-dir", i), len(dirsList))]
+			mpoint = dir + fmt.Sprintf("/mp%d", i)
+			// the mount point exists in the host directory as an (empty) directory
+			os.MkdirAll(filepath.Join(hostOut, strings.TrimPrefix(mpoint, cw.ctrOut)), 0755)
+			cw.lookup(dir).kids[fmt.Sprintf("mp%d", i)] = &tnode{dir: true, kids: map[string]*tnode{}}
+			w.Probe("collection-mounted-below-output")
+			if dir != cw.ctrOut {
+				w.Probe("collection-mounted-in-subdirectory")
+			}
+		}
+		mp := ""
+		if firstUnder(cm.files, "sub/") != "" && w.Chance(fmt.Sprintf("m%d-path-sub", i), 300) {
+			mp = "sub"
+		}
+		mounts[mpoint] = arvados.Mount{Kind: "collection", PortableDataHash: pdh, Path: mp}
+		cw.mounts[mpoint], cw.mpath[mpoint] = cm, mp
+		// link targets into this mount: the mount point, a file, a directory
+		linkTargets = append(linkTargets, mpoint)
+		for _, p := range sortedFileKeys(cm.files) {
+			if mp == "" || strings.HasPrefix(p, mp+"/") {
+				linkTargets = append(linkTargets, mpoint+"/"+strings.TrimPrefix(strings.TrimPrefix(p, mp), "/"))
+				break
+			}
+		}
+		if mp == "" && firstUnder(cm.files, "sub/") != "" {
+			linkTargets = append(linkTargets, mpoint+"/sub")
+		}
+	}
 	bad := 0
 	for li, l := range links {
 		n := cw.lookup(l.dir).kids[l.name]
